@@ -3,12 +3,18 @@ import PyndlProofs.NdlContinue
 /-!
   `ndlCall` = `ndl.ndl` as called (PyndlModel/Ndl.lean): `ndlModel` plus the
   behaviour on an event file with zero events (no chunk file ⇒ a called kernel
-  entry point reports `INITIAL_ERROR_CODE` ⇒ `IOError`).  For a non-empty event
-  list it IS `ndlModel`, so every `ndlModel` theorem is a theorem about the call.
+  entry point reports `INITIAL_ERROR_CODE` ⇒ `IOError`, cf.
+  `learnChunksB2B_nil`).  For a non-empty event list it IS `ndlModel`, so every
+  `ndlModel` theorem is a theorem about the call; errors of `ndlModel` are
+  errors of the call.
 -/
+
+set_option linter.unusedSectionVars false
+set_option linter.unusedVariables false
 
 namespace Pyndl
 
+section
 variable {R : Type} [Add R] [Sub R] [Mul R] [Zero R]
 
 theorem ndlCall_nonempty (magic version : Nat) (cfg : NdlCfg) (alpha β₁ β₂ lam : R) (W0 : Option (LW R))
@@ -24,6 +30,14 @@ theorem ndlCall_nonempty (magic version : Nat) (cfg : NdlCfg) (alpha β₁ β₂
   | ok r =>
     obtain ⟨w, n⟩ := r
     simp only [h, Bool.false_eq_true, if_false]
+
+/-- an error of `ndlModel` (argument checks, conversion) is the error of the call -/
+theorem ndlCall_error (magic version : Nat) (cfg : NdlCfg) (alpha β₁ β₂ lam : R) (W0 : Option (LW R))
+    (es : List (Event String String)) (e : Err)
+    (h : ndlModel magic version cfg alpha β₁ β₂ lam W0 es = .error e) :
+    ndlCall magic version cfg alpha β₁ β₂ lam W0 es = .error e := by
+  unfold ndlCall
+  rw [h]
 
 /-- whatever `ndlCall` returns, `ndlModel` returned it as well: the call never
     invents a result -/
@@ -66,5 +80,128 @@ theorem ndlCall_empty_threading (magic version : Nat) (cfg : NdlCfg) (hm : cfg.m
   unfold ndlCall
   rw [h]
   simp only [List.isEmpty_nil, if_true, hm]
+
+end
+
+section
+variable {R : Type} [CommRing R]
+
+/-! ### the success theorems, for the CALL -/
+
+/-- **`ndl.ndl` as called = specification** (from scratch, at least one event) -/
+theorem ndlCall_eq_spec (magic version : Nat) (hm : magic < 4294967296) (hv : version < 4294967296)
+    (cfg : NdlCfg) (alpha β₁ β₂ lam : R) (es es' : List (Event String String)) (hne : es ≠ [])
+    (hcfg : CfgOK cfg (countNames es).2.length)
+    (hp : applyPolicyAll cfg.policy es = some es') (hfit : Fits32 es) :
+    ∃ w, ndlCall magic version cfg alpha β₁ β₂ lam none es = .ok (w, es.length) ∧
+      ∀ o c, w.get o c = rwLearn (fun _ => alpha) β₁ β₂ lam (fun _ _ => (0 : R)) es' o c := by
+  rw [ndlCall_nonempty _ _ _ _ _ _ _ _ _ hne]
+  exact ndlModel_eq_spec magic version hm hv cfg alpha β₁ β₂ lam es es' hcfg hp hfit
+
+/-- **`ndl.ndl(weights=w)` as called = specification continued** (at least one event) -/
+theorem ndlCall_continue_eq_spec (magic version : Nat) (hm : magic < 4294967296) (hv : version < 4294967296)
+    (cfg : NdlCfg) (alpha β₁ β₂ lam : R) (w : LW R) (es es' : List (Event String String)) (hne : es ≠ [])
+    (hcfg : CfgOK cfg (mergedOutcomes w es).length)
+    (hp : applyPolicyAll cfg.policy es = some es') (hfit : Fits32With w es) :
+    ∃ r, ndlCall magic version cfg alpha β₁ β₂ lam (some w) es = .ok (r, es.length) ∧
+      ∀ o c, r.get o c = rwLearn (fun _ => alpha) β₁ β₂ lam (fun o c => w.get o c) es' o c := by
+  rw [ndlCall_nonempty _ _ _ _ _ _ _ _ _ hne]
+  exact ndlModel_continue_eq_spec magic version hm hv cfg alpha β₁ β₂ lam w es es' hcfg hp hfit
+
+/-! ### the error directions, for the CALL -/
+
+/-- `events_per_temporary_file ≥ 2³²` ⇒ `OverflowError` (`.other`), always -/
+theorem ndlCall_perFile_overflow (magic version : Nat) (cfg : NdlCfg) (alpha β₁ β₂ lam : R)
+    (W0 : Option (LW R)) (es : List (Event String String)) (h : 4294967296 ≤ cfg.perFile) :
+    ndlCall magic version cfg alpha β₁ β₂ lam W0 es = .error .other :=
+  ndlCall_error _ _ _ _ _ _ _ _ _ _ (ndlModel_perFile_overflow magic version cfg alpha β₁ β₂ lam W0 es h)
+
+/-- a duplicate the policy rejects, anywhere in the file ⇒ `ValueError` -/
+theorem ndlCall_dup_raises (magic version : Nat) (cfg : NdlCfg) (alpha β₁ β₂ lam : R)
+    (W0 : Option (LW R)) (es : List (Event String String))
+    (hper : 2 ≤ cfg.perFile) (hperU : cfg.perFile < 4294967296)
+    (h : applyPolicyAll cfg.policy es = none) :
+    ndlCall magic version cfg alpha β₁ β₂ lam W0 es = .error .value :=
+  ndlCall_error _ _ _ _ _ _ _ _ _ _ (ndlModel_dup_raises magic version cfg alpha β₁ β₂ lam W0 es hper hperU h)
+
+/-! ### zero events -/
+
+/-- the conversion of zero events writes no file and reports 0 -/
+theorem makeChunks_nil (magic version : Nat) (p : DupPolicy) (per : Nat) (hp : 1 ≤ per) (hU : per < 4294967296) :
+    makeChunks magic version p [] per = .ok ([], 0) := by
+  unfold makeChunks
+  rw [if_neg (by omega)]
+  have : nChunks ([] : List (Event Nat Nat)).length per = 0 := by
+    unfold nChunks
+    simp only [List.length_nil, Nat.zero_add]
+    exact Nat.div_eq_of_lt (by omega)
+  rw [this]
+  rfl
+
+/-- on zero events `ndlCore` passes the argument checks and returns labels and
+    (for OpenMP: also values) as given -/
+theorem ndlCore_nil (magic version : Nat) (cfg : NdlCfg) (alpha β₁ β₂ lam : R) (cues outs : List String)
+    (vals : Array R) (hper : 2 ≤ cfg.perFile) (hperU : cfg.perFile < 4294967296)
+    (hjt : cfg.method = .threading → 1 ≤ cfg.perJob)
+    (hjo : cfg.method = .openmp → cfg.perJob < 4294967296) :
+    ∃ v, ndlCore magic version cfg alpha β₁ β₂ lam cues outs vals [] = .ok (⟨outs, cues, v⟩, 0) := by
+  unfold ndlCore
+  have h1 : ¬ cfg.perFile < 2 := by omega
+  simp only [h1, if_false, List.map_nil, makeChunks_nil magic version cfg.policy cfg.perFile (by omega) hperU,
+    decodeAll]
+  cases hmeth : cfg.method with
+  | threading =>
+    have h2 : ¬ cfg.perJob < 1 := by have := hjt hmeth; omega
+    simp only [h2, if_false]
+    exact ⟨_, rfl⟩
+  | openmp =>
+    have h3 : ¬ 4294967296 ≤ cfg.perJob := by have := hjo hmeth; omega
+    simp only [h3, if_false, List.isEmpty_nil, Bool.not_true, Bool.false_eq_true, and_false]
+    exact ⟨_, rfl⟩
+
+/-- **an event file with ZERO events makes `ndl.ndl` raise `IOError`** — with
+    OpenMP always, with threading as soon as there is an outcome row to train
+    (`weights=` with at least one outcome) — whenever the argument checks pass -/
+theorem ndlCall_nil_raises (magic version : Nat) (cfg : NdlCfg) (alpha β₁ β₂ lam : R) (W0 : Option (LW R))
+    (hper : 2 ≤ cfg.perFile) (hperU : cfg.perFile < 4294967296)
+    (hjt : cfg.method = .threading → 1 ≤ cfg.perJob)
+    (hjo : cfg.method = .openmp → cfg.perJob < 4294967296)
+    (hne : cfg.method = .openmp ∨ ∃ w, W0 = some w ∧ w.outcomes ≠ []) :
+    ndlCall magic version cfg alpha β₁ β₂ lam W0 [] = .error .io := by
+  have hok : ∃ r, ndlModel magic version cfg alpha β₁ β₂ lam W0 [] = .ok (r, 0) ∧
+      r.outcomes = (match W0 with | none => [] | some w => w.outcomes) := by
+    cases W0 with
+    | none =>
+      rw [ndlModel_none]
+      obtain ⟨v, hv⟩ := ndlCore_nil magic version cfg alpha β₁ β₂ lam (countNames []).1 (countNames []).2
+        (Array.replicate ((countNames []).2.length * (countNames []).1.length) 0) hper hperU hjt hjo
+      exact ⟨_, hv, rfl⟩
+    | some w =>
+      rw [ndlModel_some]
+      obtain ⟨v, hv⟩ := ndlCore_nil magic version cfg alpha β₁ β₂ lam
+        (w.cues ++ (countNames []).1.filter (fun c => !w.cues.contains c))
+        (w.outcomes ++ (countNames []).2.filter (fun o => !w.outcomes.contains o))
+        (extendVals w.vals w.outcomes.length w.cues.length
+          (w.outcomes ++ (countNames []).2.filter (fun o => !w.outcomes.contains o)).length
+          (w.cues ++ (countNames []).1.filter (fun c => !w.cues.contains c)).length) hper hperU hjt hjo
+      refine ⟨_, hv, ?_⟩
+      simp [countNames, dedupKeepFirst]
+  obtain ⟨r, hr, hout⟩ := hok
+  cases hm : cfg.method with
+  | openmp => exact ndlCall_empty_openmp _ _ cfg hm alpha β₁ β₂ lam W0 _ hr
+  | threading =>
+    rw [ndlCall_empty_threading _ _ cfg hm alpha β₁ β₂ lam W0 r _ hr]
+    rcases hne with h | ⟨w, hw, hwo⟩
+    · rw [hm] at h; cases h
+    · subst hw
+      simp only at hout
+      have : r.outcomes.isEmpty = false := by
+        rw [hout]
+        cases h : w.outcomes with
+        | nil => exact absurd h hwo
+        | cons _ _ => rfl
+      simp [this]
+
+end
 
 end Pyndl
